@@ -68,6 +68,10 @@ def program(draw):
         ff = draw(c11.focused_time_filter(objs))  # a range that begins or ends at an instant of an existing component
         if ff is not None:
             filters.append(ff)
+    for _ in range(draw(st.integers(0, 2))):
+        ff = draw(c11.focused_presence_filter(objs))  # presence tests on properties that exist, also with empty / zero values
+        if ff is not None:
+            filters.append(ff)
     # common client queries: events in a time range, open to-dos
     if draw(st.booleans()):
         filters.append({"name": "VCALENDAR", "comps": [{"name": "VEVENT", "time_range": ["20200101T000000Z", "20201231T000000Z"]}]})
